@@ -313,6 +313,26 @@ func (c *Ctx) errContradictions(rule string, fns []*ssa.Function, consequence st
 							}
 						}
 					}
+					// an HTTP handler that answers the failure itself (http.Error, NotFound, a
+					// rendered error page) and then returns nil has reported it — to the client
+					if !excused {
+						for _, b := range fn.Blocks {
+							if !(b == ret.Block() || b.Dominates(ret.Block())) || !eng.KnownNonNil(ev, b) {
+								continue
+							}
+							for _, bi := range b.Instrs {
+								ci, isCI := bi.(ssa.CallInstruction)
+								if !isCI {
+									continue
+								}
+								for _, a := range ci.Common().Args {
+									if nt, isN := a.Type().(*types.Named); isN && nt.Obj().Pkg() != nil && nt.Obj().Pkg().Path() == "net/http" && nt.Obj().Name() == "ResponseWriter" {
+										excused = true
+									}
+								}
+							}
+						}
+					}
 					if !excused {
 						r.Bad(rule, cons, p.InstrPos(ret), "this return reports success although it lies on the branch where the error of %s is not nil: %s", p.InstrPos(ev.(ssa.Instruction)), consequence)
 						return
